@@ -430,12 +430,12 @@ def set_header_cfg(path, update):
 
 
 def graph_leg(ctx, module, model, gen_cfg, cfgobj, walks, walklen, allhist, sim_cfg=None, sim_num=0, sim_depth=0,
-              timeout=1500, sim_cfgobj=None, maxfail=500, variants=None, variant_walks=None):
+              timeout=1500, sim_cfgobj=None, maxfail=500, variants=None, variant_walks=None, histbudget=300000):
     """The standard L2 leg: dump + replay the bounded graph, then (optionally) spec-simulated deep behaviours.
     variants: further harness configurations (dict updates of cfgobj) under which the same graph / behaviours are replayed again."""
     edges = ctx.path(gen_cfg + ".edges")
     g = tlc_gen(ctx, module, gen_cfg, edges, cfgobj=cfgobj, timeout=timeout)
-    r = replay(ctx, model, edges, walks=walks, walklen=walklen, allhist=allhist, maxfail=maxfail)
+    r = replay(ctx, model, edges, walks=walks, walklen=walklen, allhist=allhist, maxfail=maxfail, histbudget=histbudget)
     log("  %s: %d edges / %d states; %d behaviours, %d steps, %d failures" % (
         gen_cfg, g["edges"], g["states"], r["behaviours"], r["steps"], r["failures_n"]))
     vfail = vbeh = 0
